@@ -159,16 +159,17 @@ Viol3(o) == IF o.eqab /\ o.eqbc => o.eqac THEN {} ELSE {"Transitive"}
 MaxCP == [l |-> 97, u |-> 65, d |-> 49, s |-> 33, p |-> 40, q |-> 34, b |-> 92, at |-> 64,
           dot |-> 46, sp |-> 32, del |-> 127, c80 |-> 128, c81 |-> 129, cm |-> 769,
           i130 |-> 304, ss |-> 223, fs |-> 962, fw |-> 65313,
-          ace |-> 120, ACE |-> 88, pm |-> 116, PM |-> 84,
+          ace |-> 120, ACE |-> 88, pm |-> 116, PM |-> 84, Pm |-> 116,
           \* only in the comparison layer: letters whose lower-casing and case folding differ
           sg |-> 963, SG |-> 931, li |-> 105, es |-> 115, ls |-> 383, kk |-> 107, KS |-> 8490,
           \* only in the domain layer: degenerate A-label shapes ("xn--", "XN--", "Xn--", "xn---") and "-"
           xe |-> 120, XE |-> 88, Xe |-> 110, xh |-> 120, hy |-> 45]
 \* the alphabet of the one-string laws
 Sym == {"l", "u", "d", "s", "p", "q", "b", "at", "dot", "sp", "del", "c80", "c81", "cm", "i130", "ss",
-        "fs", "fw", "ace", "ACE", "pm", "PM"}
+        "fs", "fw", "ace", "ACE", "pm", "PM", "Pm"}
 MboxSpecial == {"p", "q", "b", "at", "sp"}      \* ( " \ @ space: force quoting
-Postmaster == {<<"pm">>, <<"PM">>}
+\* the domain-less address of RFC 5321 4.1.1.3 in lower, upper and mixed case
+Postmaster == {<<"pm">>, <<"PM">>, <<"Pm">>}
 
 IsASCIIM(D, s) == \A i \in DOMAIN s :
                     IF "IsASCII128" \in D THEN MaxCP[s[i]] <= 128 ELSE MaxCP[s[i]] < 128
@@ -204,10 +205,16 @@ UnquoteM(m) ==
   LET st == UFold([quoted |-> FALSE, escaped |-> FALSE, term |-> FALSE, out |-> <<>>, err |-> FALSE], m)
   IN IF st.err \/ st.out = <<>> THEN [ok |-> FALSE, val |-> <<>>] ELSE [ok |-> TRUE, val |-> st.out]
 
+\* the domain-less postmaster address has no domain to convert: CleanDomain, ToASCII,
+\* ToUnicode return it as it was given
+PmConv(s) == [clean |-> s, toascii |-> s, tounicode |-> s, rtu |-> s]
 ModelS(D, s) ==
-  [isascii |-> IsASCIIM(D, s), split |-> SplitM(s), quote |-> QuoteM(s),
-   unq |-> UnquoteM(s), uq |-> UnquoteM(QuoteM(s))]
-ProjS(o) == [isascii |-> o.isascii, split |-> o.split, quote |-> o.quote, unq |-> o.unq, uq |-> o.uq]
+  LET base == [isascii |-> IsASCIIM(D, s), split |-> SplitM(s), quote |-> QuoteM(s),
+               unq |-> UnquoteM(s), uq |-> UnquoteM(QuoteM(s))]
+  IN IF s \in Postmaster THEN base @@ [pmconv |-> PmConv(s)] ELSE base
+ProjS(o) ==
+  LET base == [isascii |-> o.isascii, split |-> o.split, quote |-> o.quote, unq |-> o.unq, uq |-> o.uq]
+  IN IF "pmconv" \in DOMAIN o THEN base @@ [pmconv |-> o.pmconv] ELSE base
 
 \* the laws, stated without reference to the algorithms
 ViolS(s, o) ==
@@ -221,6 +228,13 @@ ViolS(s, o) ==
                 /\ o.split.mbox # <<>> /\ o.split.dom # <<>>
                 /\ \A i \in DOMAIN o.split.dom : o.split.dom[i] # "at"
         THEN {} ELSE {"SplitJoin"})
+  \* the domain-less postmaster address (valid, any letter case): splitting gives the
+  \* address itself and no domain, so re-joining gives it back; the conversions of the
+  \* domain, and ToUnicode(ToASCII(.)), leave it as it was given
+  \cup (IF s \in Postmaster =>
+             /\ o.split.ok /\ o.split.mbox = s /\ o.split.dom = <<>>
+             /\ "pmconv" \in DOMAIN o /\ o.pmconv = PmConv(s)
+        THEN {} ELSE {"PostmasterKept"})
   \* quoting and unquoting of a local part
   \cup (IF s # <<>> => o.uq.ok /\ o.uq.val = s THEN {} ELSE {"QuoteUnquote"})
   \cup (IF o.panics = <<>> THEN {} ELSE {"NoPanic"})
